@@ -32,6 +32,14 @@ CHECKS = {
   text="Idiom classification of every store into a distribution in the backend / pdist code decides, for all inputs, that probability mass is only ever accumulated (marginalisation over loss modes, mixing over source inputs, zero-photon remainder), that the remainder is stored only when positive, and that the permanent and slos branches agree on padding, truncation test (strict, on abs(amp)**2, same settings attribute) and marginalisation. These are necessary conditions of 'normalised, each pattern its total probability, backend-independent'; numerical agreement and the 1e-9 budget are not claimed.",
   note="Trusted: State/tuple/list constructors injective; fock_basis yields distinct outputs; two documented exception-table entries whose preconditions are re-derived on every run.",
   tech=TECH + "store-idiom classification over the AST (guarded accumulate / injective re-key / rescale / get-accumulate), sibling-branch comparison", ref="DESIGN.md §3 R-G; §4 C04"),
+ "C03": dict(
+  text="State-space qualifier analysis (visible / herald-completed / loss-padded, input vs output side) over Simulator and Backend decides for every circuit and state that backend calls receive input+input-heralds+loss padding and output+output-heralds+loss padding in that order; guard normal forms and CFG dominance decide that type, length (against the user-visible mode count), occupation values and equal photon number are all checked before any amplitude is computed, and that State._validate rejects non-int, bool and negative entries; structural checks decide U[out,in] orientation of the permanent sub-matrix and that both occupation lists reach the factorial normalisation. The value of the permanent and the unit-norm clause are not claimed.",
+  note="Trusted: thewalrus.perm; frozen qualifier tables for public parameters/accessors (rb_states.py).",
+  tech=TECH + "qualifier (type-state) dataflow over call sites, guard facts in comparison normal form, CFG dominance", ref="DESIGN.md §3 R-B, R-D, R-E, R-M4; §4 C03"),
+ "C05": dict(
+  text="One qualifier analysis across Simulator, Sampler, QuickSampler, Analyzer, Backend and pdist_calc (49 resolved sink checks) decides that photon and mode counts are never mixed across visible/full spaces, heralds of the right side are inserted and loss modes padded before every backend call, post-selection sees visible states, loss configurations are enumerated from same-space counts, results are keyed by visible states and the quick sampler renormalises over exactly what it kept; a guard-dependency rule decides that no simulation object refuses a circuit on a predicate of the circuit alone. Necessary conditions of the cross-object equalities; the numeric relations and the performance/error-rate formulas are not claimed.",
+  note="Trusted: frozen qualifier tables (rb_states.py); unknown qualifiers never report, floor of resolved checks prevents vacuity.",
+  tech=TECH + "qualifier dataflow with interprocedural parameter propagation (fixpoint over 23 functions), guard term-dependency analysis", ref="DESIGN.md §3 R-B, R-D(refusals), R-G; §4 C05"),
 }
 NA = {}
 
